@@ -175,7 +175,8 @@ def escClass (it : Item) (raw : Cls) : Cls :=
     else match m.body with
       | .call (.method md) =>
         match md.outcome with
-        | .returns _ => .serialize                          -- SerializeError from dumps: reported, re-raised
+        | .returns .serializeErr => .serialize              -- SerializeError from dumps: reported, re-raised
+        | .returns _ => .other                              -- dumps raised something else under a @callback: re-raised
         | .raises e _ => excCls raw e                       -- re-raise rule: callback ∨ Communication ∨ Security
       | _ => .other
 
